@@ -121,6 +121,8 @@ Handle(e) ==
     [] e.ev = "halfclose" -> Upd(e.c, OnEos(conn[e.c], "half"))
     [] e.ev = "fullclose" -> Upd(e.c, OnEos(conn[e.c], "full"))
     [] e.ev = "wfail"     -> UNCHANGED <<conn, cfg, store, conf>>
+    [] e.ev = "sleep"     -> /\ store' = [d \in DOMAIN store |-> RM!Advance(store[d], e.ms)]      \* the model clock advances
+                             /\ UNCHANGED <<conn, cfg, conf>>
     [] e.ev = "store"     -> (cfg.model => StoreDumpOK(e)) /\ UNCHANGED <<conn, cfg, store, conf>>
     [] e.ev = "block"     -> /\ Upd(e.c, OnBlock(conn[e.c]))
                              /\ (cfg.tracer /\ ~conn[e.c].wild => RootsOK(conn[e.c]))
